@@ -1,0 +1,11 @@
+//go:build verif
+
+package lang
+
+import "sync/atomic"
+
+// VerifFidLatest returns the most recently issued function id (the atomic
+// counter of the FID table). Used by the /verif harness for property C28.
+func VerifFidLatest() uint32 {
+	return atomic.LoadUint32(&GlobalFIDs.latest)
+}
